@@ -29,18 +29,27 @@ func callerArgs(p *ssa.Parameter) []ssa.Value {
 }
 
 // deepStrip is core.Strip that also follows a parameter of a function with exactly one static call site to the argument passed there (helpers extracted from a single caller).
-func deepStrip(v ssa.Value) ssa.Value {
-	for i := 0; i < 12; i++ {
+func deepStrip(v ssa.Value) ssa.Value { return deepStripN(v, 12) }
+
+func deepStripN(v ssa.Value, budget int) ssa.Value {
+	for ; budget > 0; budget-- {
 		v = core.Strip(v)
 		p, ok := v.(*ssa.Parameter)
 		if !ok {
 			return v
 		}
 		args := callerArgs(p)
-		if len(args) != 1 {
+		if len(args) == 0 {
 			return v
 		}
-		v = args[0]
+		// every call site passes the same object (one site, or several sites forwarding one value)
+		first := deepStripN(args[0], budget-1)
+		for _, a := range args[1:] {
+			if deepStripN(a, budget-1) != first {
+				return v
+			}
+		}
+		return first
 	}
 	return v
 }
